@@ -816,41 +816,65 @@ def value_copy_rule(rule, w):
 # round 5, second batch (built for missed wave-5 seeds; all are silent on the repaired tree)
 # --------------------------------------------------------------------------------------
 
+_ITER_FIXTURE = """
+def prune(clist):
+    for c in clist:
+        if not c.variables():
+            clist.remove(c)
+"""
+
+
+def _loop_mutations(fn):
+    """[(loop, iterated expression text, mutating nodes, all mutations followed by break/return?)] for loops that call a
+    list-mutating method anywhere in their body"""
+    MUT = ("remove", "append", "insert", "pop", "extend", "clear", "sort", "reverse")
+    out = []
+    for lp in [x for x in pf._scope_nodes(fn) if isinstance(x, ast.For)]:
+        it = lp.iter
+        if not isinstance(it, (ast.Name, ast.Attribute)):
+            continue
+        itx = pf.norm_expr(it)
+        muts = []
+        for x in ast.walk(lp):
+            if isinstance(x, ast.Call) and isinstance(x.func, ast.Attribute) and x.func.attr in MUT and pf.norm_expr(x.func.value) == itx:
+                muts.append(x)
+            elif isinstance(x, ast.Delete) and any(isinstance(t_, ast.Subscript) and pf.norm_expr(t_.value) == itx for t_ in x.targets):
+                muts.append(x)
+        if not muts and not any(isinstance(x, ast.Call) and isinstance(x.func, ast.Attribute) and x.func.attr in MUT for x in ast.walk(lp)):
+            continue
+        safe = all(isinstance(getattr(pf.enclosing_stmt(x), "_parent", None), (ast.If, ast.For)) and
+                   _followed_by_exit(pf.enclosing_stmt(x)) for x in muts)
+        out.append((lp, itx, muts, safe))
+    return out
+
+
 def iterate_and_mutate_rule(rule, w, modules=("modeling",)):
     """`for x in L: .. L.remove(x)` (or del / insert / append on the list being iterated) skips the
     element after each removed one.  The iterated expression must be a fresh list (a
-    concatenation, list(..), a slice) when the body mutates it."""
+    concatenation, list(..), a slice) when the body mutates it.  The repaired tree has no such
+    loop, so the rule analyses its own positive example on every run."""
     n = 0
-    MUT = ("remove", "append", "insert", "pop", "extend", "clear", "sort", "reverse")
+    ft = ast.parse(_ITER_FIXTURE)
+    pf.attach_parents(ft)
+    fx = _loop_mutations(ft.body[0])
+    n += 1
+    if len(fx) == 1 and fx[0][2] and not fx[0][3]:
+        rule.ok("self-test:fires on the embedded example `for c in clist: .. clist.remove(c)`", "sa/modeling_rules.py")
+    else:
+        rule.undecided("self-test:fires on the embedded example", "sa/modeling_rules.py", "the rule no longer recognises its own positive example")
     for mn in modules:
         m = w.mods[mn]
         for q, fn in m.funcs.items():
-            for lp in [x for x in pf._scope_nodes(fn) if isinstance(x, ast.For)]:
-                it = lp.iter
-                if not isinstance(it, (ast.Name, ast.Attribute)):
-                    continue
-                itx = pf.norm_expr(it)
-                muts = []
-                for x in ast.walk(lp):
-                    if isinstance(x, ast.Call) and isinstance(x.func, ast.Attribute) and x.func.attr in MUT and pf.norm_expr(x.func.value) == itx:
-                        muts.append(x)
-                    elif isinstance(x, ast.Delete) and any(isinstance(t_, ast.Subscript) and pf.norm_expr(t_.value) == itx for t_ in x.targets):
-                        muts.append(x)
-                if not muts and not any(isinstance(x, ast.Call) and isinstance(x.func, ast.Attribute) and x.func.attr in MUT for x in ast.walk(lp)):
-                    continue
+            for lp, itx, muts, safe in _loop_mutations(fn):
                 n += 1
                 key = "%s.%s:loop over `%s` does not mutate it" % (mn, q, itx)
-                if muts:
-                    # a mutation immediately followed by break/return is safe
-                    safe = all(isinstance(getattr(pf.enclosing_stmt(x), "_parent", None), (ast.If, ast.For)) and
-                               _followed_by_exit(pf.enclosing_stmt(x)) for x in muts)
-                    if safe:
-                        rule.ok(key, m.where(lp, fn), "mutation is followed by break/return")
-                    else:
-                        rule.violation(key, m.where(muts[0], fn),
-                                       "`%s` is modified (%s) inside the loop that iterates over it: the iterator skips the element that follows each "
-                                       "removed one" % (itx, pf.norm_expr(muts[0])[:50]), "iterate over a copy (list(%s) / a concatenation)" % itx,
-                                       pf.norm_expr(muts[0])[:60])
+                if muts and safe:
+                    rule.ok(key, m.where(lp, fn), "mutation is followed by break/return")
+                elif muts:
+                    rule.violation(key, m.where(muts[0], fn),
+                                   "`%s` is modified (%s) inside the loop that iterates over it: the iterator skips the element that follows each "
+                                   "removed one" % (itx, pf.norm_expr(muts[0])[:50]), "iterate over a copy (list(%s) / a concatenation)" % itx,
+                                   pf.norm_expr(muts[0])[:60])
                 else:
                     rule.ok(key, m.where(lp, fn))
     return n
